@@ -17,9 +17,9 @@ CHECK = {
             "under the cooperative scheduler; evaluations = executions; distinct_nontrivial = distinct (scenario, "
             "observable history) pairs. stage race: every ordered pair of calls x configuration x initial contents, "
             "10 repetitions, free-running under -race",
-    "bounds_quick": "6 configurations x 2 initial contents; programs: (<=2 calls) x (1 call) over 8 operations, 2x2 "
+    "bounds_quick": "7 configurations (one with an OnDelete callback that re-enters the cache) x 2 initial contents; programs: (<=2 calls) x (1 call) over 8 operations, 2x2 "
                     "over 6 operations, 3x1 over 8 operations; all to exhaustion",
-    "bounds_thorough": "9 configurations x 3 initial contents; 2x2 over 8 operations to exhaustion; 3x2 over 5 "
+    "bounds_thorough": "10 configurations x 3 initial contents; 2x2 over 8 operations to exhaustion; 3x2 over 5 "
                        "operations to preemption bound 3",
     "assumptions": E3_ASSUME,
     "stages": [
